@@ -4,31 +4,30 @@ expression the pattern text parses to. -/
 namespace JP
 namespace Re
 
-/-- `match(s, p)`: when the wrapped pattern `^(?:p)$` parses to `anchored r` with `r` free of anchors, the answer is yes
-exactly if the whole of `s` is in the language of `r` -/
-theorem regexFn_match (s p : Str) (r : Rx) (hp : parse (prepare p false) = .ok (anchored r)) (hr : anchorFree r = true) :
+/-- `match(s, p)`: when `p` parses to an anchor-free `r`, the answer is yes exactly if the whole of `s` is in the language of `r` -/
+theorem regexFn_match (s p : Str) (r : Rx) (hp : parse p = .ok r) (hr : anchorFree r = true) :
     regexFn s p false = .yes ↔ L r s := by
   unfold regexFn
   rw [hp]
-  simp only
+  simp only [Bool.false_eq_true, if_false]
   rw [← match_whole r hr s]
   by_cases h : isMatch (anchored r) s = true
   · simp [h]
   · simp [h]
 
 /-- `search(s, p)`: when `p` parses to an anchor-free `r`, the answer is yes exactly if some substring of `s` is in its language -/
-theorem regexFn_search (s p : Str) (r : Rx) (hp : parse (prepare p true) = .ok r) (hr : anchorFree r = true) :
+theorem regexFn_search (s p : Str) (r : Rx) (hp : parse p = .ok r) (hr : anchorFree r = true) :
     regexFn s p true = .yes ↔ ∃ pre w post, s = pre ++ w ++ post ∧ L r w := by
   unfold regexFn
   rw [hp]
-  simp only
+  simp only [if_true]
   rw [← search_substring r hr s]
   by_cases h : isMatch r s = true
   · simp [h]
   · simp [h]
 
-/-- a pattern that does not parse never matches (RFC 9535: a string that is not an I-Regexp gives LogicalFalse) -/
-theorem regexFn_invalid (s p : Str) (sub : Bool) (hp : parse (prepare p sub) = .invalid) : regexFn s p sub = .no := by
+/-- a pattern that is not a regular expression never matches (RFC 9535: LogicalFalse), whatever the anchoring wrapper would make of it -/
+theorem regexFn_invalid (s p : Str) (sub : Bool) (hp : parse p = .invalid) : regexFn s p sub = .no := by
   unfold regexFn; rw [hp]
 
 end Re
